@@ -284,32 +284,7 @@ func runC11(p *core.Prog, r *core.Report) {
 	}
 	// ---------------- R7 the streaming decoder reads from bytes nobody else writes
 	r7 := r.Rule("C11.R7", "the bytes handed to a streaming zstd decoder as the head of its input are a private copy, never a view of a caller's buffer: the decoder reads ahead lazily while the caller's buffer is refilled with the decoded head", 1)
-	nDec := 0
-	for _, fn := range p.FuncsIn("pkg/local_object_storage/blobstor/fstree") {
-		decs := core.CallSites([]*ssa.Function{fn}, func(s core.Site) bool { return s.Name == "github.com/klauspost/compress/zstd.NewReader" })
-		if len(decs) == 0 {
-			continue
-		}
-		nDec += len(decs)
-		n := 0
-		for _, cs := range core.CallSites([]*ssa.Function{fn}, func(s core.Site) bool { return s.Name == "bytes.NewReader" || s.Name == "bytes.NewBuffer" }) {
-			c, ok := cs.Call.(*ssa.Call)
-			if !ok || !feedsCall(c, "github.com/klauspost/compress/zstd.NewReader", 8, map[ssa.Value]bool{}) {
-				continue
-			}
-			n++
-			arg := c.Call.Args[0]
-			r7.Check(core.RootParam(fn, arg) < 0, core.FuncName(fn)+"#decoder-input", p.InstrPos(c), "the decoder's head input is a fresh copy",
-				"the streaming decoder reads its first bytes straight from a caller's buffer ("+arg.Name()+"): the decoder consumes its input lazily, so refilling that buffer with decoded data corrupts the compressed blocks not yet consumed and the range read fails or returns wrong bytes")
-		}
-		if n == 0 {
-			// decoder reading the file only: nothing shared
-			r7.Check(true, core.FuncName(fn)+"#decoder-input", p.Pos(fn.Pos()), "the decoder reads from the file only", "")
-		}
-	}
-	if nDec == 0 {
-		r.Fatalf("C11.R7: no streaming decoder found in fstree")
-	}
+	decoderInputPrivate(p, r, r7)
 	// ---------------- R8 the two readings of 'the whole payload' agree
 	r8 := r.Rule("C11.R8", "a range that PayloadRange.IsFull calls the whole payload (served as a plain read by ReadObjectParts and the GET service) is never refused by PayloadRange.Resolve (used by the resolving readers): in the cases of those modes Resolve answers out-of-range only after finding the first position non-zero", 2)
 	fullRangeNeverRefused(p, r, r8)
@@ -627,4 +602,34 @@ func bo0(bo *ssa.BinOp, ok bool) ssa.Value {
 		return nil
 	}
 	return bo.Y
+}
+
+// decoderInputPrivate: shared by C11.R7 and C10.R4.
+func decoderInputPrivate(p *core.Prog, r *core.Report, r7 *core.RuleH) {
+	nDec := 0
+	for _, fn := range p.FuncsIn("pkg/local_object_storage/blobstor/fstree") {
+		decs := core.CallSites([]*ssa.Function{fn}, func(s core.Site) bool { return s.Name == "github.com/klauspost/compress/zstd.NewReader" })
+		if len(decs) == 0 {
+			continue
+		}
+		nDec += len(decs)
+		n := 0
+		for _, cs := range core.CallSites([]*ssa.Function{fn}, func(s core.Site) bool { return s.Name == "bytes.NewReader" || s.Name == "bytes.NewBuffer" }) {
+			c, ok := cs.Call.(*ssa.Call)
+			if !ok || !feedsCall(c, "github.com/klauspost/compress/zstd.NewReader", 8, map[ssa.Value]bool{}) {
+				continue
+			}
+			n++
+			arg := c.Call.Args[0]
+			r7.Check(core.RootParam(fn, arg) < 0, core.FuncName(fn)+"#decoder-input", p.InstrPos(c), "the decoder's head input is a fresh copy",
+				"the streaming decoder reads its first bytes straight from a caller's buffer ("+arg.Name()+"): the decoder consumes its input lazily, so refilling that buffer with decoded data corrupts the compressed blocks not yet consumed and the range read fails or returns wrong bytes")
+		}
+		if n == 0 {
+			// decoder reading the file only: nothing shared
+			r7.Check(true, core.FuncName(fn)+"#decoder-input", p.Pos(fn.Pos()), "the decoder reads from the file only", "")
+		}
+	}
+	if nDec == 0 {
+		r.Fatalf("%s: no streaming decoder found in fstree", r7.ID())
+	}
 }
